@@ -89,9 +89,14 @@ def run(ctx):
             # congruence clause, any invertible C
             Cinv = np.array([[rng.randint(-8, 8) / 4.0 for _ in range(norb)] for _ in range(norb)]) + 2 * np.eye(norb)
             for M, label in ((U, "orthogonal"), (Cinv, "invertible")):
-                rot = hobj.rotate_orbs({k: (jnp.array(v) if hasattr(v, "shape") else v) for k, v in ham.items()}, jnp.array(M))
-                evals += 1
+                hin = {k: (jnp.array(v) if hasattr(v, "shape") else v) for k, v in ham.items()}
                 L = np.array(plain["chol"]).reshape(-1, norb, norb)
+                if label == "invertible":
+                    # the congruence clause holds for each matrix as it is: non-symmetric Cholesky matrices too
+                    L = L + np.array([[[rng.randint(-8, 8) / 16.0 for _j in range(norb)] for _i in range(norb)] for _g in range(L.shape[0])])
+                    hin["chol"] = jnp.array(L.reshape(L.shape[0], -1))
+                rot = hobj.rotate_orbs(hin, jnp.array(M))
+                evals += 1
                 ok = (np.abs(np.array(rot["h1"][0]) - M.T @ plain["h1"][0] @ M).max() < 1e-10 and
                       np.abs(np.array(rot["h1"][1]) - M.T @ plain["h1"][1] @ M).max() < 1e-10 and
                       np.abs(np.array(rot["chol"]).reshape(-1, norb, norb) - np.einsum("qi,gij,jp->gqp", M.T, L, M)).max() < 1e-10)
